@@ -702,3 +702,31 @@ def return_forms(fn, depth: int = 2):
                 continue
         out.append((facts, v))
     return out
+
+
+def style_parse_vocabulary(ctx):
+    """(dict literal value, its AST node) of the attribute vocabulary used by Style.parse: a dict display with at least 13 string
+    keys assigned inside parse, or a class-level / module-level constant that parse refers to by name"""
+    import ast as _ast
+    from ..astutil import literal
+    from ..index import AnalysisError, walk_local
+    parse = ctx.repo.cls("style:Style").method("parse")
+    cands = []
+    for n in walk_local(parse.node):
+        if isinstance(n, _ast.Assign) and isinstance(n.value, _ast.Dict) and len(n.value.keys) >= 13:
+            cands.append(n.value)
+    if not cands:
+        used = {x.attr for x in walk_local(parse.node) if isinstance(x, _ast.Attribute) and isinstance(x.value, _ast.Name) and x.value.id in ("cls", "Style", "self")} | {x.id for x in walk_local(parse.node) if isinstance(x, _ast.Name)}
+        for st in list(parse.cls.node.body) + list(parse.module.tree.body):
+            v = st.value if isinstance(st, (_ast.Assign, _ast.AnnAssign)) else None
+            t = (st.targets[0] if isinstance(st, _ast.Assign) else st.target) if v is not None else None
+            if isinstance(v, _ast.Dict) and len(v.keys) >= 13 and isinstance(t, _ast.Name) and t.id in used:
+                cands.append(v)
+    for v in cands:
+        try:
+            d = literal(v)
+        except AnalysisError:
+            continue
+        if isinstance(d, dict) and "bold" in d:
+            return d, v
+    return None
